@@ -7,10 +7,12 @@ import common as C
 import programs as P
 import semrun as S
 import t_stmt as T9
+import t_reserved as T10
 
 PID = "C10"
 THEOREMS = ["bindings_immutable", "prefix_stable", "prefix_failure_propagates", "rebind_is_error", "reserved_is_error",
             "func_depends_on_snapshot_and_args", "documented_reserved_words_rejected",
+            "reserved_words_are_the_sources", "documented_reserved_words_in_the_sources",
             "Stmt.statement_keeps_bindings", "Stmt.statement_binds_only_its_name", "Stmt.rebinding_is_error_in_every_form",
             "Stmt.reserved_word_is_error_in_every_form", "Stmt.program_with_two_bindings_of_a_name_fails", "Stmt.program_prefix_stable",
             "Stmt.constraint_statement_result", "Stmt.statement_leaves_stack_balanced"]
@@ -116,6 +118,14 @@ def run(tier, seed):
         broken.append({"translator": tr["status"]})
     else:
         cov["statement_tables"] = {k: " ".join(v) if isinstance(v, (list, tuple)) else str(v) for k, v in tr.get("tables", {}).items()}
+    tr10 = T10.generate(C.REPO, C.GEN, C.write_if_changed)
+    cov["translator_reserved"] = tr10["status"]
+    if tr10["status"] != "generated":
+        C.write_if_changed(os.path.join(C.GEN, "Reserved.v"), open(os.path.join(C.COQ, "snapshots", "Reserved.v")).read())
+        broken.append({"translator": tr10["status"]})
+        cov["tie"] = "behavioural-fallback"
+    else:
+        cov["reserved_words_from_source"] = tr10["words"]
     pr = C.prove(ck, ["theories/props/C10_Props.vo"], "props.C10_Props", THEOREMS)
     if not pr["ok"]:
         broken.append({"obligations": "C10_Props", "built": pr["built"], "audit": pr["audit"],
